@@ -412,6 +412,18 @@ fn ps(report: &Report, cli: &Cli) {
             if sk.sign_known_message(&too_long, &mut r).is_ok() || pk.verify(&sig, &too_long) {
                 return fail("over-long-message-accepted", json!({}));
             }
+            // the signed message itself (padded to the key's length) with surplus components: the
+            // signature binds nothing beyond the key's length, so such a message must be refused
+            for surplus in 1..=3usize {
+                for t in [F::zero(), F::one(), vals[3].1] {
+                    let mut m = padded(v);
+                    m.extend(std::iter::repeat(t).take(surplus));
+                    report.trace(1);
+                    if pk.verify(&sig, &ps_sig::KnownMessage::<P>(m.clone())) || pk.verify(&unblinded, &ps_sig::KnownMessage::<P>(m)) {
+                        return fail("ps-signature-verifies-for-other-message", json!({"other": "the signed message with surplus components", "surplus": surplus}));
+                    }
+                }
+            }
             // altered signature components
             let neg = ps_sig::Signature::<P>(sig.0, sig.1.inverse_point());
             let swapped = ps_sig::Signature::<P>(sig.1, sig.0);
